@@ -110,6 +110,8 @@ def run_case(case, opcode=False):
     sc = case['schedule']
     if sc['kind'] == 'single':
         schedule = sched.SinglePreemption(sc['point'])
+    elif sc['kind'] == 'double':
+        schedule = sched.DoublePreemption(sc['i'], sc['j'])
     elif sc['kind'] == 'bursts':
         schedule = sched.Bursts(sc['bursts'])
     else:
@@ -235,6 +237,39 @@ def run_single_preemptions(col, ctx, pool, opcode):
     col.extra['pairs'] = len(pairs) if k == 0 else 0
 
 
+def run_double_preemptions(col, ctx):
+    """Thorough: every (i, j) double pre-emption for two pairs of special-pseudo-class compiles."""
+    k, nsh = ctx['shard'], ctx['nshards']
+    idx = 0
+    complete = True
+    for a, b in ((':nth-child(2n+1)', ':lang(en)'), (':-soup-contains("a")', ':dir(rtl)')):
+        opa = {'op': 'compile', 'p': a, 'purge': True}
+        opb = {'op': 'compile', 'p': b, 'purge': True}
+        na, _ = sched.count_yield_points(make_op(dict(opa, tid=0), [None]))
+        nb, _ = sched.count_yield_points(make_op(dict(opb, tid=0), [None]))
+        for i in range(1, na + 1, 2):
+            for j in range(1, nb + 1, 2):
+                idx += 1
+                if idx % nsh != k:
+                    continue
+                if idx % 64 == k and time.time() > ctx['t_end']:
+                    col.extra['budget_exhausted'] = 1
+                    complete = False
+                    break
+                case = {'threads': [[dict(opa)], [dict(opb)]], 'schedule': {'kind': 'double', 'i': i, 'j': j}, 'opcode': False}
+                fails, st = run_case(case, False)
+                col.count()
+                if st['switches'] >= 2:
+                    col.nontrivial_case(['double', a, b, i, j], None)
+                for bkt, d in fails[:2]:
+                    col.fail(bkt, case, d)
+            if not complete:
+                break
+        if not complete:
+            break
+    col.extra['double_preemption_complete'] = int(complete)
+
+
 def gen_mixed(ch, pool):
     nthreads = ch.i(2, 4)
     threads = []
@@ -284,6 +319,9 @@ def shard(ctx):
     ex = common.hyp_run(choose.choices(512), body, 3000 if tier == 'quick' else 300000, ctx['hseed'],
                         deadline_ts=t_mixed_end)
     col.extra['mixed_budget_exhausted'] = int(ex)
+    if tier == 'thorough':
+        ctx2 = dict(ctx, t_end=time.time() + ctx['budget_s'] * 0.25)
+        run_double_preemptions(col, ctx2)
     run_single_preemptions(col, ctx, pool, opcode)
     return col
 
